@@ -87,6 +87,23 @@ def gen_wellformed(kind: str) -> t.Iterator[t.Tuple[t.Any, t.Callable[[], t.Any]
                                    contexts=[R.ContextElement(context_id=c, abstract_syntax=syn(R, a), transfer_syntaxes=[syn(R, x) for x in ts]) for c, a, ts in ctxs])
 
                     yield [kind, nctx, ntr, tl], mk, ref, R._pdu.PDU.unpack
+        # contexts that offer DIFFERENT numbers of transfer syntaxes: every shape of 1..4 contexts with 0..3 syntaxes each (elements of unequal size)
+        import itertools as _it
+
+        for nctx in range(1, 5):
+            for counts in _it.product(range(4), repeat=nctx):
+                if len(set(counts)) == 1:
+                    continue
+                for tl in (None, 16):
+                    ctxs = [(100 * i + 1, (SYNS[i % 4][0], 1 + i // 4, i), tuple((SYNS[(i + j) % 4][0] if j % 2 else SYNS[i % 4][0], 1 + j // 2, j) for j in range(counts[i]))) for i in range(nctx)]
+                    tr_obj, tr_ref = trailer_pair(R, tl)
+                    ref = rpc.enc_bind_like(pt, 3, 7, ctxs, tr_ref, 4280, 5840, 0xA1B2C3)
+
+                    def mk2(ctxs=ctxs, tr_obj=tr_obj, ref=ref, tl=tl):
+                        return cls(header=hdr(R, pt, 3, len(ref), tl or 0), sec_trailer=tr_obj, max_xmit_frag=4280, max_recv_frag=5840, assoc_group=0xA1B2C3,
+                                   contexts=[R.ContextElement(context_id=c, abstract_syntax=syn(R, a), transfer_syntaxes=[syn(R, x) for x in ts]) for c, a, ts in ctxs])
+
+                    yield [kind, "shape", list(counts), tl], mk2, ref, R._pdu.PDU.unpack
     elif kind in ("bind_ack", "alter_context_resp"):
         pt = rpc.BIND_ACK if kind == "bind_ack" else rpc.ALTER_CONTEXT_RESP
         cls = R.BindAck if kind == "bind_ack" else R.AlterContextResponse
